@@ -61,6 +61,7 @@ _STATIC = {
     "C02": "credulous statuses of the stable, complete (DC-CO, DC-PR; aux_var / exp / hybrid) and grounded solvers equal the reference semantics",
     "C03": "skeptical statuses of the stable and grounded (GR, DS-CO) solvers equal the reference semantics, including 'every argument accepted' when no stable extension exists",
     "C04": "certificates of the stable / complete / grounded solvers appear exactly when promised, are extensions, contain / omit the queried argument and consist of the framework's own argument objects",
+    "C06": "on one solver object the same query with and without certificate, repeated and in different orders, gives the reference status each time; the complete solver gives one status for the aux_var, exp and hybrid encodings; the framework is unchanged by querying (stable, complete, grounded solvers)",
     "C07": "queries over every ordered pair of arguments are answered as disjunctions, with and without certificate (complete, stable, grounded solvers; cross-component case at 3 arguments)",
     "C16": "clause (a) only: no SAT call of the stable / complete solvers carries an assumption on a variable above n_vars(), i.e. the DIMACS header written by BufferedSatSolver covers the instance",
     "C17": "when the k-th SAT call (k symbolic) of a stable / complete query returns Unknown, the query never returns a status or an extension (it aborts by the panic of unwrap_model)",
@@ -71,7 +72,7 @@ for _p, _t in _STATIC.items():
         category="model_checking",
         technique="Kani/CBMC bounded model checking of the real solver code with a demonic SAT oracle (symbolic model choices), concrete small frameworks",
         text=_t + ". Each harness is one CBMC query over the compiled MIR of the working tree; a failed assertion is reported only after native reproduction.",
-        note=_STATIC_NOTE + (" For C16 the reply parser and the 'cannot hang' clause, for C17 the external reply kinds and the exit status, for C18 the PR/ID/SST/STG bounds are outside." if _p in ("C16", "C17", "C18") else ""),
+        note=_STATIC_NOTE + (" For C06 the clause about the two real backends (embedded CaDiCaL / external process) is outside: the oracle stands for every backend honouring the SatSolver contract, that the real ones honour it is C15." if _p == "C06" else "") + (" For C16 the reply parser and the 'cannot hang' clause, for C17 the external reply kinds and the exit status, for C18 the PR/ID/SST/STG bounds are outside." if _p in ("C16", "C17", "C18") else ""),
         design="DESIGN.md sections 3.3, 3.4, 4")
 CHECKS["C08"] = dict(
     category="model_checking",
@@ -98,7 +99,6 @@ CHECKS["C12"] = dict(
     design="DESIGN.md section 4 (C12)")
 
 NOT_APPLICABLE = {
-    "C06": "beyond what C02-C04/C07 already assert (one reference for every encoder, with and without certificate) the property is about the two real backends (FFI / child process: not encodable) and about repeated / reordered queries on one solver object, which doubles harnesses that already need 8 GB and 5 minutes per query pair; the iterative solvers are out of CBMC's reach altogether (DESIGN.md sections 2, 5)",
     "C14": "the writers format through core::fmt into a dyn Write: with formatting stubbed nothing is left to check, unstubbed CBMC does not finish; reading back needs the regex-based reader, which cannot be compiled to CBMC",
     "C11": "needs frameworks of 20-300 arguments; symbolic execution of the solvers reaches <=3 arguments, where the property is a corollary of C01-C03",
     "C15": "the behaviour specified is that of CaDiCaL (C++ behind FFI) and of an external process; neither can be compiled to the solver's input",
